@@ -52,7 +52,7 @@ def floors(tier):
     return {'evaluations': 15000, 'distinct_nontrivial': 4000, 'callbacks_checked': 200000,
             'none_placeholders_seen': 2000, 'histkeys:callback': 9, 'trees_with_none_body_or_args': 50,
             'empty_nodelist_arguments_seen': 500, 'nonempty_nodelist_arguments_seen': 500,
-            'catch_all_visitor_runs': 5000, 'argument_lists_counted': 20000, 'visitor_runs_with_none_results': 3000, 'revisited_after_legacy_reads': 3000, 'legacy_attribute_reads': 3000, 'histkeys:catch_all_for': 9, 'hist:catch_all_for:visit_specials_node': 200}
+            'catch_all_visitor_runs': 5000, 'argument_lists_counted': 20000, 'visitor_runs_with_none_results': 3000, 'revisited_after_legacy_reads': 3000, 'recovered_trees_of_truncated_documents': 1000, 'legacy_attribute_reads': 3000, 'histkeys:catch_all_for': 9, 'hist:catch_all_for:visit_specials_node': 200}
 
 
 def setup(rec):
@@ -401,6 +401,14 @@ def run_shard(desc, rec):
                         'mask': (0 if i % 4 == 0 else rng.randrange(1 << 10)) if i % 2 == 0 else None,
                         'legacy': [None, 'attrs', None, 'l2t'][i % 4] if i % 5 < 3 else None,
                         'none_for': rng.sample(_KIND_METHODS, rng.randint(1, 4)) if i % 3 == 0 else None}, rec)
+            # "any parsed tree": the same document cut off somewhere (inside an argument, a verbatim environment, a formula)
+            # and recovered by tolerant parsing
+            if i % 2 == 0:
+                for _ in range(2):
+                    cut = rng.randint(1, max(1, len(s) - 1))
+                    rec.case()
+                    rec.monitor('recovered_trees_of_truncated_documents')
+                    check_case({'s': s[:cut], 'ctx': cdesc, 'tolerant': True}, rec)
 
 
 LEVEL_TEXT = ('Exploration with a reference traversal: a recording visitor (one unique token per callback) is started on '
